@@ -2202,7 +2202,10 @@ func (c *DirConstraint) blobMatches(ctx context.Context, s *search, br blob.Ref,
 	}
 	// Then if needed recurse on the next generation descendants.
 	if !containsMatch && recursive {
-		match, err := c.hasMatchingChild(ctx, s, children, c.blobMatches)
+		// Only RecursiveContains applies to the descendants; the other fields
+		// of c constrain the directory being matched, not the ones in between.
+		descendant := &DirConstraint{RecursiveContains: c.RecursiveContains}
+		match, err := c.hasMatchingChild(ctx, s, children, descendant.blobMatches)
 		if err != nil {
 			return false, err
 		}
